@@ -263,7 +263,22 @@ func (e *Exec) deliver(tx model.Tx) (TxObs, []Disc, bool) {
 	} else {
 		obs.Pred = "ante"
 	}
+	// refused before the pre-execution stage even began (baseapp reports no gas wanted: the transaction did not
+	// decode or a message failed its stateless validation) although the keys, the sequence and - on a copy of
+	// the model - every message are in order: the stateless validation refuses a legitimate operation
+	statelessReject := false
+	if !obs.AnteOK && !r.OK() && r.GasWanted == 0 && r.GasUsed == 0 && !wrongSigner && !tx.BadSig && tx.SeqDelta == 0 &&
+		(tx.Signed == nil || txJSON(model.Tx{Msgs: tx.Signed}) == txJSON(model.Tx{Msgs: tx.Msgs})) {
+		if f := m.Clone().ExecMsgs(e.env(), tx); f == nil {
+			statelessReject = true
+		}
+	}
 	switch {
+	case statelessReject:
+		k := model.Flatten(tx.Msgs)[0].Kind
+		discs = append(discs, Disc{Kind: "tx.reject_unexpected:" + k,
+			Detail: fmt.Sprintf("transaction refused before the pre-execution stage (stateless validation; %s/%d: %s) but the reference model accepts it; tx %s", r.Codespace, r.Code, firstLine(r.Log), txJSON(tx)),
+			Sig:    map[string]string{"kind": k, "stage": "stateless_validation"}})
 	case obs.AnteOK && tx.Signed != nil && txJSON(model.Tx{Msgs: tx.Signed}) != txJSON(model.Tx{Msgs: tx.Msgs}):
 		// the pre-execution stage (signature verification) let a transaction through whose content is not what was signed
 		k := model.Flatten(tx.Msgs)[0].Kind
